@@ -140,9 +140,8 @@ class bitmapdata_offsets:
     }
     ensures = {
         "one-location-per-glyph": lambda color_glyphs, result: len(result) == len(color_glyphs),
-        "starts-at-initial": lambda color_glyphs, initial_offset, result: implies(
-            len(color_glyphs) > 0, result[0][0] == initial_offset
-        ),
+        "starts-at-initial": lambda color_glyphs, initial_offset, result: len(color_glyphs) == 0
+        or result[0][0] == initial_offset,
         # record i occupies [o_i, o_i + 9 + len(png_i)) -- SmallGlyphMetrics(5) + dataLen(4) + data
         "record-extent": lambda color_glyphs, result: all(
             result[i][1] == result[i][0] + 9 + len(color_glyphs[i].bitmap) for i in range(0, len(color_glyphs))
